@@ -81,6 +81,51 @@ def handle (inp out : String) : String :=
           else none
       verdict s!"fan:n{k}:{if (firstResp es).isSome then "resp" else "noresp"}" ms out spec
     | _, _ => "skip bad-fan"
+  | ["ha", n, steps] =>
+    match n.toNat? with
+    | some ne =>
+      -- HA service state: requests (automaton state), per endpoint FIFO of held request ids and of ready events, response queue
+      let init : List Req × List (List Nat) × List (List (Nat × Ev)) × List Out := ([], List.replicate ne [], List.replicate ne [], [])
+      let (_, _, _, _, toks, completed) := (steps.splitOn ",").foldl (fun (acc : List Req × List (List Nat) × List (List (Nat × Ev)) × List Out × List String × List (Nat × Out)) tok =>
+        let (reqs, held, ready, queue, toks, comp) := acc
+        match tok.splitOn ":" with
+        | ["a", mask] =>
+          let accepts := (List.range ne).filter fun i => mask.toList.getD i '0' == '1'
+          if accepts.isEmpty then (reqs, held, ready, queue, toks ++ [toString 0x607], comp)      -- KSI_ASYNC_REQUEST_CACHE_FULL from the mocks
+          else
+            let id := reqs.length
+            (reqs ++ [start accepts.length], held.mapIdx (fun i q => if accepts.contains i then q ++ [id] else q), ready, queue, toks ++ ["0"], comp)
+        | ["o", e, what] =>
+          let ei := e.toNat?.getD 99
+          match held.getD ei [] with
+          | [] => (reqs, held, ready, queue, toks ++ ["-"], comp)
+          | id :: rest =>
+            let ev : Ev := if what == "r" then .resp ei else .err ei ((what.drop 1).toString.toNat?.getD 0)
+            (reqs, held.mapIdx (fun i q => if i == ei then rest else q), ready.mapIdx (fun i q => if i == ei then q ++ [(id, ev)] else q), queue, toks ++ ["+"], comp)
+        | ["run"] =>
+          -- responseHandler: one ready handle from every endpoint, in endpoint order
+          let (reqs, ready, queue, comp) := (List.range ne).foldl (fun (a : List Req × List (List (Nat × Ev)) × List Out × List (Nat × Out)) i =>
+            let (reqs, ready, queue, comp) := a
+            match ready.getD i [] with
+            | [] => a
+            | (id, ev) :: rest =>
+              let (r', outs) := step (reqs.getD id (start 0)) ev
+              (reqs.mapIdx (fun j r => if j == id then r' else r), ready.mapIdx (fun j q => if j == i then rest else q), queue ++ outs,
+               comp ++ (outs.filter Out.isCompletion).map fun o => (id, o))) (reqs, ready, queue, comp)
+          match queue with
+          | [] => (reqs, held, ready, [], toks ++ ["-"], comp)
+          | o :: rest => (reqs, held, ready, rest, toks ++ [showOut o], comp)
+        | _ => (reqs, held, ready, queue, toks ++ ["?"], comp)) (init.1, init.2.1, init.2.2.1, init.2.2.2, [], [])
+      let ms := ",".intercalate toks
+      -- oracle: no request is completed twice (per request id, at most one completion in the model is implied by the theorem;
+      -- on the implementation side: the number of R/F tokens never exceeds the number of accepted requests)
+      let implToks := out.splitOn ","
+      let implComp := (implToks.filter fun t => t.startsWith "R" || t.startsWith "F").length
+      let accepted := (implToks.zip (steps.splitOn ",")).filter (fun (o, i) => i.startsWith "a:" && o == "0") |>.length
+      let spec := if implComp > accepted then some "more-completions-than-accepted-requests" else
+        if completed.length < implComp then some "request-completed-although-not-all-endpoints-answered" else none
+      verdict s!"ha:n{ne}" ms out spec
+    | none => "skip bad-ha"
   | _ => "skip unknown-op"
 
 def main : IO Unit := runDriver handle
